@@ -109,16 +109,23 @@ class DocGen:
                 self.features.add("multi_required")
         if rng.random() < 0.15:
             out["additionalProperties"] = rng.choice([False, self.scalar()])
+        def sub(depth=depth):
+            # object schemas (titles from the colliding pool) also live under
+            # patternProperties / dependencies / items of the same element
+            if depth < self.max_depth and rng.random() < 0.5:
+                return self.obj(depth + 1, "pool" if rng.random() < 0.7 else None)
+            return self.scalar()
+
         if rng.random() < 0.15:
             out["patternProperties"] = {
-                pat: self.scalar()
+                pat: sub()
                 for pat in rng.sample(["^x_", "_id$", "^[a-z]+$", "\\d"], rng.randint(1, 3))
             }
-        if rng.random() < 0.1:
+        if rng.random() < 0.12:
             names = list(props)
             out["dependencies"] = {
                 rng.choice(names): rng.sample(["req_a", "req_b", "zeta"] + names, 2),
-                "dep_k": self.scalar(),
+                "dep_k": sub(),
             }
         if rng.random() < 0.08:
             out["propertyNames"] = {"maxLength": rng.randint(3, 9)}
@@ -145,6 +152,11 @@ class DocGen:
             out[key] = branches
         if len(keys) >= 2:
             self.features.add("multi_keyword_composition")
+        if rng.random() < 0.08:
+            # a composition of trivial members, with a default
+            out = {rng.choice(["allOf", "anyOf"]): [{}] * rng.randint(1, 2), "default": rng.choice(["n/a", 7, ["x"]])}
+            self.features.add("trivial_composition_with_default")
+            return out
         if rng.random() < 0.15:
             out["not"] = self.scalar()
         if rng.random() < 0.2:
@@ -208,6 +220,14 @@ class DocGen:
         if rng.random() < 0.03:
             root["if"] = {"type": "string"}
             self.features.add("unsupported_keyword")
+        if rng.random() < 0.012 and root.get("type") == "object":
+            # very deep non-object nesting: close to what the serialisers' own
+            # recursion can take
+            node = {"type": "string"}
+            for level in range(rng.randint(60, 110)):
+                node = {"properties": {f"n{level % 3}": node}}
+            root.setdefault("properties", {})["deep"] = node
+            self.features.add("deep_nesting")
         return root, ext
 
 
